@@ -229,3 +229,6 @@ C19 = Prop(
     assumptions=["shared_ptr runs its deleter exactly when the last copy is destroyed",
                  "distinct library files give distinct loader handles"],
 )
+
+C18.rule += (" Op mkx: creation of a payload whose constructor throws after a member was built (no destructor of the payload type may run, the member "
+             "dies exactly once, the target keeps what it had; model QOp.makeFails).")
